@@ -221,7 +221,10 @@ func (p *Parser) parse(dict *Dictionary, parsedFiles map[string]struct{}, f File
 					}
 				}
 
-				if err := p.parse(dict, parsedFiles, incFile); err != nil {
+				parsedFiles[incFileName] = struct{}{}
+				err = p.parse(dict, parsedFiles, incFile)
+				delete(parsedFiles, incFileName)
+				if err != nil {
 					return err
 				}
 
